@@ -214,3 +214,74 @@ void h_ModOp(void) {
         VREACH("zero");
     }
 }
+
+/* ---- power operator ---------------------------------------------------------------------------
+ * integer: negative exponent gives 0; exponents 0..2 give the exact two's-complement power
+ * (larger exponents: loop of up to 63 squarings, bounded stand-in not attempted);
+ * float with negative base and integral exponent |e| <= 3: the exact repeated product. */
+#ifndef VERIF_OPT_FLOAT
+void h_PotOp_int(void) {
+    long long x;
+    H_BEGIN(0)
+    VASSUME(ri <= 2);
+    x = (ri < 0) ? 0 : (ri == 0) ? 1 : (ri == 1) ? li : li * li;
+    PotOp(&e, &l, &r);
+    VPOST(e.Typ == TempInt && e.Contents.Int == x, "C08: integer power for exponents up to 2 (negative exponent gives 0)");
+    VREACH("end");
+}
+#else
+void h_PotOp_f(void) {
+    double x, b;
+    H_BEGIN(1)
+#ifdef VERIF_POT_EXP2
+    VASSUME(lf < 0 && rf == 2.0);
+#else
+    VASSUME(lf < 0 && rf == 1.0);
+#endif
+    b = (rf < 0) ? 1 / lf : lf;
+    x = (rf == 1.0 || rf == -1.0) ? b : (rf == 2.0 || rf == -2.0) ? b * b : (b * b) * b;
+    PotOp(&e, &l, &r);
+    VPOST(e.Typ == TempFloat && SAME_F(e.Contents.Float, x), "C08: negative base with an integral exponent: the exact repeated product");
+    VREACH("end");
+}
+#endif
+
+/* ---- operator table against the manual's table "Operators Predefined by AS" -------------------
+ * (id, rank, number of operands, integer / float / string admitted).  The code's priorities
+ * must order the operators exactly as the manual's ranks do (equal ranks <=> equal priorities);
+ * evaluation of a constant table: complete by full unwinding. */
+#ifndef VERIF_OPT_FLOAT
+struct man_op { char const* id; int rank, nops, i, f, s; };
+static const struct man_op manual[] = {
+    {"<>", 14, 2, 1, 1, 1}, {">=", 14, 2, 1, 1, 1}, {"<=", 14, 2, 1, 1, 1}, {"<", 14, 2, 1, 1, 1}, {">", 14, 2, 1, 1, 1},
+    {"=", 14, 2, 1, 1, 1}, {"==", 14, 2, 1, 1, 1}, {"!!", 13, 2, 1, 0, 0}, {"||", 12, 2, 1, 0, 0}, {"&&", 11, 2, 1, 0, 0},
+    {"~~", 2, 1, 1, 0, 0}, {"-", 10, 2, 1, 1, 0}, {"+", 10, 2, 1, 1, 1}, {"#", 9, 2, 1, 0, 0}, {"/", 9, 2, 1, 1, 0},
+    {"*", 9, 2, 1, 1, 0}, {"^", 8, 2, 1, 1, 0}, {"!", 7, 2, 1, 0, 0}, {"|", 6, 2, 1, 0, 0}, {"&", 5, 2, 1, 0, 0},
+    {"><", 4, 2, 1, 0, 0}, {">>", 3, 2, 1, 0, 0}, {"<<", 3, 2, 1, 0, 0}, {"~", 1, 1, 1, 0, 0},
+};
+#define N_MAN ((int)(sizeof(manual) / sizeof(manual[0])))
+static int str_eq(char const* a, char const* b) { int i; for (i = 0; i < 3; i++) { if (a[i] != b[i]) return 0; if (!a[i]) return 1; } return 1; }
+static int find_op(char const* id) { int k; for (k = 1; k < 30 && Operators[k].Id; k++) if (str_eq(Operators[k].Id, id)) return k; return -1; }
+static int admits(Operator const* op, int lt, int rt) { int z; for (z = 0; z < OPERATOR_MAXCOMB; z++) if (op->TypeCombinations[z] == (lt | (rt << 4))) return 1; return 0; }
+void h_OperatorTable(void) {
+    int a, b, n = 0;
+    for (a = 1; a < 30 && Operators[a].Id; a++) n++;
+    VPOST(n == N_MAN, "C08: the operator table holds exactly the documented operators");
+    for (a = 0; a < N_MAN; a++) {
+        int ka = find_op(manual[a].id);
+        VPOST(ka > 0, "C08: every documented operator exists");
+        VPOST(Operators[ka].IdLen == (manual[a].id[1] ? 2 : 1), "C08: operator id length");
+        VPOST((Operators[ka].Dyadic != 0) == (manual[a].nops == 2), "C08: number of operands as documented");
+        if (manual[a].nops == 2) {
+            VPOST(admits(&Operators[ka], TempInt, TempInt) == manual[a].i, "C08: integer operands as documented");
+            VPOST(admits(&Operators[ka], TempFloat, TempFloat) == manual[a].f, "C08: float operands as documented");
+            VPOST(admits(&Operators[ka], TempString, TempString) == manual[a].s, "C08: string operands as documented");
+        }
+        for (b = 0; b < N_MAN; b++) {
+            int kb = find_op(manual[b].id);
+            VPOST((manual[a].rank < manual[b].rank) == (Operators[ka].Priority < Operators[kb].Priority), "C08: operator ranks order as tabulated in the manual");
+        }
+    }
+    VREACH("end");
+}
+#endif
